@@ -1,3 +1,12 @@
--- This module serves as the root of the `GoWebdav` library.
--- Import modules here that should be built as part of the library.
-import GoWebdav.Basic
+-- Root of the library: every property module (and through them the models, specs and lemmas).
+import GoWebdav.Props.C03
+import GoWebdav.Props.C04
+import GoWebdav.Props.C06
+import GoWebdav.Props.C07
+import GoWebdav.Props.C12
+import GoWebdav.Props.C16
+import GoWebdav.Props.C19
+import GoWebdav.Generated.Tables
+import GoWebdav.Generated.Schema
+import GoWebdav.Generated.Facts
+import GoWebdav.Expected.Tables
